@@ -4,9 +4,9 @@ CONSTANTS ZMax = 1
           XBandLeftOpen = TRUE
           NMin = 4
           N = 4
-          GapMax = 2
-          HMax = 2
+          GapMax = 1
+          HMax = 1
           WMax = 2
           HBMin = 1
-          HBMax = 2
+          HBMax = 1
 INVARIANT ResultOk
